@@ -223,7 +223,8 @@ def run_shard(spec, tier, seed, budget_s):
                 size = 'large'          # a few big documents in every tier (many tables, references, indexes)
             kwp = rng.random() < 0.15
             doc = gen.random_doc(rng, size, text_profile=rng.choice(['plain', 'rich']),
-                                 props=rng.random() < 0.3 and not kwp, flavours=('kwprefix',) if kwp else gen.CORE_FLAVOURS)
+                                 props=rng.random() < 0.3 and not kwp, flavours=('kwprefix',) if kwp else gen.CORE_FLAVOURS,
+                                 kwstrings=True)
             label = 'random.kwprefix' if kwp else 'random'
             if not kwp and rng.random() < 0.2 and gen.same_bare_names(doc, rng):
                 label = 'random.samebare'      # equal bare table names in different schemas
@@ -266,6 +267,41 @@ def run_shard(spec, tier, seed, budget_s):
             exp = am.expected(doc)
             for s in range(nstyles):
                 check_doc(sh, doc, f'{seed}-{i}-{k}-{s}', expect=exp, label=label)
+            if rng.random() < 0.15:
+                # the same document from a file with CRLF line ends, handed in as a path and as an open file: the stored
+                # texts are the ones of the document (no stray carriage returns)
+                import os
+                import tempfile
+                from pathlib import Path
+                from pydbml import PyDBML
+                text_ = surface.render(doc, f'{seed}-{i}-{k}-crlf')
+                fd, pth = tempfile.mkstemp(suffix='.dbml', dir=os.environ.get('PV_SCRATCH') or None)
+                try:
+                    with os.fdopen(fd, 'w', encoding='utf8', newline='') as f:
+                        f.write(text_.replace('\n', '\r\n'))
+                    for route in ('Path', 'file', 'parse_file'):
+                        try:
+                            if route == 'Path':
+                                dbf = PyDBML(Path(pth), allow_properties=doc.allow_properties)
+                            elif route == 'file':
+                                with open(pth, encoding='utf8') as fh:
+                                    dbf = PyDBML(fh, allow_properties=doc.allow_properties)
+                            elif doc.allow_properties:
+                                continue
+                            else:
+                                dbf = PyDBML.parse_file(pth)
+                        except Exception as e:  # noqa
+                            cls, where = monitors.classify_exc(e)
+                            sh.violation('parse', f'rejected:{cls}:crlf-file-{route}', f'{cls}: {e}', {'kind': 'parse_compare', 'text': text_, 'expected': exp,
+                                         'allow_properties': doc.allow_properties}, {'suite': 'crlf-file'})
+                            continue
+                        sh.count('obs.docs.crlf-file')
+                        d_ = am.diff(exp, walk.content(dbf))
+                        if d_:
+                            sh.violation('content', f'content:crlf-file-{route}:' + path_skeleton(d_[0]), d_[:4], {'kind': 'parse_compare', 'text': text_, 'expected': exp,
+                                         'allow_properties': doc.allow_properties}, {'suite': 'crlf-file'})
+                finally:
+                    os.unlink(pth)
             # metamorphic: inline -> standalone
             d2 = gen.inline_to_standalone(doc, rng)
             exp2 = am.expected(d2)
